@@ -337,6 +337,114 @@ func runGenericWide(cs GenCase) string {
 }
 
 // ---------------------------------------------------------------------------------------------
+// mocks requested through a method value: Func(obj.Method)
+
+// MVCase is the replay artefact of the method-value part.
+type MVCase struct {
+	MethodValue bool   `json:"method_value"`
+	Recv        string `json:"recv"` // small | ptr | big | huge
+	How         string `json:"how"`  // apply | return
+}
+
+// runMethodValue: Func(x.M) names the method M of x's type. After Apply/Return the method is
+// replaced for every instance — called directly and through a method value — with the receiver
+// handed to the callback unchanged; the other types' methods are unaffected; Reset restores.
+func runMethodValue(cs MVCase) string {
+	b := mocker.Create()
+	defer func() { vk.Try(func() { b.Reset() }) }()
+	s1, s2 := mx.MVSmall{A: 1, B: 2}, mx.MVSmall{A: 5, B: 6}
+	p1, p2 := &mx.MVPtr{A: 7}, &mx.MVPtr{A: 8}
+	b1, b2 := mx.MVBig{Tag: 3}, mx.MVBig{Tag: 9}
+	b1.Data[3], b2.Data[3] = 4, 40
+	h1, h2 := mx.MVHuge{Tag: 11}, mx.MVHuge{Tag: 12}
+	h1.Data[200], h2.Data[200] = 13, 14
+	seen := -1
+	msg, p := vk.Try(func() {
+		switch cs.Recv {
+		case "small":
+			m := b.Func(s1.Sum)
+			if cs.How == "apply" {
+				m.Apply(func(r mx.MVSmall, x int) int { seen = r.A*100 + r.B; return 9007 })
+			} else {
+				m.Return(9100)
+			}
+		case "ptr":
+			m := b.Func(p1.Get)
+			if cs.How == "apply" {
+				m.Apply(func(r *mx.MVPtr, x int) int { seen = r.A; return 9007 })
+			} else {
+				m.Return(9100)
+			}
+		case "big":
+			m := b.Func(b1.Sum)
+			if cs.How == "apply" {
+				m.Apply(func(r mx.MVBig, x int) int { seen = r.Tag*100 + int(r.Data[3]); return 9007 })
+			} else {
+				m.Return(9100)
+			}
+		case "huge":
+			m := b.Func(h1.Sum)
+			if cs.How == "apply" {
+				m.Apply(func(r mx.MVHuge, x int) int { seen = r.Tag*100 + int(r.Data[200]); return 9007 })
+			} else {
+				m.Return(9100)
+			}
+		}
+	})
+	if p {
+		return "panic: Func(x.M) on the " + cs.Recv + " receiver panicked: " + vk.Short(msg, 100)
+	}
+	want := 9100
+	if cs.How == "apply" {
+		want = 9007
+	}
+	fvS, fvP, fvB, fvH := s2.Sum, p2.Get, b2.Sum, h2.Sum
+	probes := []struct {
+		recv, form string
+		call       func() int
+		seen, orig int
+	}{
+		{"small", "direct, the instance the mock was requested on", func() int { return s1.Sum(7) }, 102, 1 + 2 + 7},
+		{"small", "direct, another instance", func() int { return s2.Sum(7) }, 506, 5 + 6 + 7},
+		{"small", "method value of another instance", func() int { return fvS(7) }, 506, 5 + 6 + 7},
+		{"ptr", "direct, the instance the mock was requested on", func() int { return p1.Get(7) }, 7, 7 + 7 + 10},
+		{"ptr", "direct, another instance", func() int { return p2.Get(7) }, 8, 8 + 7 + 10},
+		{"ptr", "method value of another instance", func() int { return fvP(7) }, 8, 8 + 7 + 10},
+		{"big", "direct, the instance the mock was requested on", func() int { return b1.Sum(7) }, 304, 3 + 4 + 7 + 20},
+		{"big", "direct, another instance", func() int { return b2.Sum(7) }, 940, 9 + 40 + 7 + 20},
+		{"big", "method value of another instance", func() int { return fvB(7) }, 940, 9 + 40 + 7 + 20},
+		{"huge", "direct, the instance the mock was requested on", func() int { return h1.Sum(7) }, 1113, 11 + 13 + 7 + 30},
+		{"huge", "direct, another instance", func() int { return h2.Sum(7) }, 1214, 12 + 14 + 7 + 30},
+		{"huge", "method value of another instance", func() int { return fvH(7) }, 1214, 12 + 14 + 7 + 30},
+	}
+	for _, pr := range probes {
+		var got int
+		seen = -1
+		msg, p := vk.Try(func() { got = pr.call() })
+		if p {
+			return fmt.Sprintf("panic: %s receiver, %s: %s", pr.recv, pr.form, vk.Short(msg, 100))
+		}
+		if pr.recv == cs.Recv {
+			if got != want {
+				return fmt.Sprintf("not-replaced: %s receiver, call %s, returned %d, expected the replacement's %d", pr.recv, pr.form, got, want)
+			}
+			if cs.How == "apply" && seen != pr.seen {
+				return fmt.Sprintf("receiver: %s receiver, call %s: the callback saw receiver digest %d, the instance has %d", pr.recv, pr.form, seen, pr.seen)
+			}
+		} else if got != pr.orig {
+			return fmt.Sprintf("other-affected: the %s receiver's method was not mocked (mocked: %s) but call %s returned %d instead of %d", pr.recv, cs.Recv, pr.form, got, pr.orig)
+		}
+	}
+	b.Reset()
+	for _, pr := range probes {
+		if got := pr.call(); got != pr.orig {
+			return fmt.Sprintf("not-restored: %s receiver, call %s returns %d after Reset, the original returns %d", pr.recv, pr.form, got, pr.orig)
+		}
+	}
+	return ""
+}
+
+// ---------------------------------------------------------------------------------------------
 // one unexported-method mocker object re-targeted with Method(name)
 
 // RetargetCase is the replay artefact of the re-target part.
@@ -437,6 +545,26 @@ func extraCases(c *vk.Ctx, base int64) {
 			c.Distinct(fmt.Sprint(cs))
 			if f != "" {
 				c.Violate(fmt.Sprintf("generic-receiver method=%s inst=%s how=return class=%s", m, inst, f[:indexByte(f, ':')]), f, cs)
+			}
+		}
+	}
+	for _, rv := range []string{"small", "ptr", "big", "huge"} {
+		for _, how := range []string{"apply", "return"} {
+			mine := c.Mine(idx)
+			idx++
+			if !mine || c.Full() {
+				continue
+			}
+			cs := MVCase{true, rv, how}
+			f := runMethodValue(cs)
+			n++
+			c.Res.Evaluations++
+			c.Res.Traces++
+			c.Res.States++
+			c.Res.Transitions += 26
+			c.Distinct(fmt.Sprint(cs))
+			if f != "" {
+				c.Violate(fmt.Sprintf("method-value recv=%s how=%s class=%s", rv, how, f[:indexByte(f, ':')]), f, cs)
 			}
 		}
 	}
